@@ -34,4 +34,8 @@ ENTRIES = {
     text="Down-sampling enumerated exhaustively over every (count, target) with count <= 400 (quick) / 2500 (thorough); motion filter on exhaustive integer-step x pi/8-heading grids and Hypothesis random geometry via a checker walking the kept ids; time crop with every kind of bound; three splitters judged as partitions with exact cut placement; merge judged as a time-sorted union with own stamps/orientations; tagged poses show that position, orientation and timestamp travel together.",
     design_ref="5/C11", technique="exhaustive enumeration + property-based testing (Hypothesis) with index-law and partition/union predicates on tagged trajectories",
     note="Spacing bound |id_k - ideal| <= 1; distance/speed/angle decisions within a 1e-9 relative margin accept either outcome, integer grids and time comparisons are exact."),
+ "C12": dict(
+    text="Seeded Hypothesis search: error arrays (1-200 drawn values, bulk to 1e6, magnitudes 1e-12..1e6, constant/single) against math.fsum statistics, order relations and rmse^2 = mean^2 + std^2; all 100 ordered unit pairs (exact rational conversion factor within 4 ulp, refusals leave values and unit untouched); ape()/rpe() results on generated timestamped trajectories: companion arrays refer to the right poses, stored trajectories are the processed ones ([0]+pair ends for RPE), title/label name metric, relation, unit, delta and pairing.",
+    design_ref="5/C12", technique="property-based testing (Hypothesis) against fsum reference statistics, exact rational unit factors and a companion-array reference",
+    note="Order relations carry a 1e-9 relative slack (one-ulp failures on constant arrays are not defects); distances-from-start are read on the stored trajectories."),
 }
